@@ -179,6 +179,21 @@ class Context:
         """Return default representation."""
         return pformat(self)
 
+    def branch(self) -> Context:
+        """Context for one branch of an if.
+
+        What the branch binds (assignments and function-local imports) must not be
+        visible on the paths that do not take it.
+        """
+        return Context(
+            symbols=dict(self.symbols),
+            caller=self.caller,
+            parent_module=self.parent_module,
+            origin=self.origin,
+            modules=dict(self.modules),
+            fns=dict(self.fns),
+        )
+
     def updated(
         self,
         symbols: dict[str, sympy.Symbol | sympy.Expr] | None = None,
@@ -410,11 +425,10 @@ def _handle_fn_body(body: list[ast.stmt], ctx: Context) -> sympy.Expr | None:
         if isinstance(node, ast.If):
             condition = _handle_test(node.test, ctx)
             _check_branch(node.body, remaining_body)
-            # Each branch works on its own copy of the symbol table: what it
-            # assigns must not be visible on the paths that do not take it
-            if_expr = _handle_fn_body(
-                node.body, ctx.updated(symbols=dict(ctx.symbols))
-            )
+            # Each branch works on its own copy of the symbol table and of the
+            # function-local imports: what it binds must not be visible on the
+            # paths that do not take it
+            if_expr = _handle_fn_body(node.body, ctx.branch())
             pieces.append((if_expr, condition))
 
             # If there's an else clause
@@ -426,19 +440,14 @@ def _handle_fn_body(body: list[ast.stmt], ctx: Context) -> sympy.Expr | None:
                 else:
                     # It's a regular else
                     _check_branch(node.orelse, remaining_body)
-                    else_expr = _handle_fn_body(
-                        node.orelse, ctx.updated(symbols=dict(ctx.symbols))
-                    )
+                    else_expr = _handle_fn_body(node.orelse, ctx.branch())
                     pieces.append((else_expr, True))
                     break  # We're done with this chain
 
             elif not remaining_body and any(
                 isinstance(n, ast.Return) for n in body[body.index(node) + 1 :]
             ):
-                else_expr = _handle_fn_body(
-                    body[body.index(node) + 1 :],
-                    ctx.updated(symbols=dict(ctx.symbols)),
-                )
+                else_expr = _handle_fn_body(body[body.index(node) + 1 :], ctx.branch())
                 pieces.append((else_expr, True))
 
         elif isinstance(node, ast.Return):
